@@ -31,6 +31,11 @@ def order_args(t):
     return bad
 
 
+def _from_extra_names(t):
+    """the term is built from the extra coordinate names (the parameter, or what its validator returned)"""
+    return any(x == ("param", "extra_coords_names") or (x[0] == "call" and callee(x) == "verde.base.utils.check_extra_coords_names") for x in walk(t) if isinstance(x, tuple) and x)
+
+
 def check(ctx):
     c05.r2_make_xarray_grid(ctx, rule="R1")
     c05.r3_mesh(ctx, rule="R1")
@@ -48,9 +53,8 @@ def check(ctx):
     mixed = any(p.exit == "raise" and p.conds and p.conds[-1][1] and p.conds[-1][0][0] == "cmp" and p.conds[-1][0][1] == "!=" for p in ctx.paths(qn))
     ctx.check("R1", qn + "|raises|mixed-dimensions", True if mixed else False, "easting and northing of different dimensionality raise", bad="mixed dimensionality is accepted", fn=qn)
     K.precedes(ctx, "R1", "verde.utils.make_xarray_grid", K.is_call("verde.base.utils.check_extra_coords_names"),
-               lambda e: (e.kind == "store" and e.data[3] == "container" and e.data[1][0] == "elem") or
-               (e.kind == "call" and callee(e.data[0]) == ".update" and any(x == ("param", "extra_coords_names") or (x[0] == "call" and callee(x) == "verde.base.utils.check_extra_coords_names")
-                                                                              for x in walk(e.data[0]) if isinstance(x, tuple) and x)),
+               lambda e: (e.kind == "store" and e.data[3] == "container" and _from_extra_names(e.data[1])) or
+               (e.kind == "call" and callee(e.data[0]) == ".update" and _from_extra_names(e.data[0])),
                "extra-names-validated-before-use", "extra coordinate names are validated before they are used")
     # ---- R2 grid_to_table
     K.roles_rule(ctx, "R2", [GT], with_return=False, require={GT: [{"meshgrid-operands"}, {"zip-name-array", "dict-entry"}]})
